@@ -24,6 +24,7 @@ func init() {
 }
 
 func runC11(c *Ctx) {
+	c.Assumptions = append(c.Assumptions, "utils.GoWithRecover runs the given function on a new goroutine once", "the operating system delivers the listener file descriptors passed over the transfer socket intact")
 	c.Rule("C11.O1", "listener.Shutdown: stop accepting (close or stopAccept) before the drain callback; no close on the upgrade branch", 4)
 	c.Rule("C11.O2", "OnShutdown notifies connections then waits; the wait is bounded and re-reads the active-stream gauge", 5)
 	c.Rule("C11.O3", "StageManager.Stop: graceful-stop stage before Close before after-stop", 4)
